@@ -1,6 +1,8 @@
 package main
 
 import (
+	"path/filepath"
+	"os"
 	"encoding/json"
 	"fmt"
 	"regexp"
@@ -25,6 +27,7 @@ type badCase struct {
 	Schema []string          `json:"schema"`
 	Files  map[string]string `json:"files"`
 	ValidTwin map[string]string `json:"valid_twin,omitempty"`
+	PrevSchema []string         `json:"prev_schema,omitempty"` // schema-side fault: the schema before the change (same file names)
 	Fault  fault             `json:"fault"`
 	Layout layoutKind        `json:"layout"`
 	File   string            `json:"fault_file"`
@@ -105,6 +108,24 @@ func runBad(c *Ctx, prop string) {
 			continue
 		}
 		lay := layouts[(i/len(faultClasses))%len(layouts)]
+		if prop == "C05" && i%9 == 4 {
+			// schema-side fault: the operations stay exactly those of the valid twin, a field they select is renamed in
+			// the SCHEMA (same file names, regenerated in place) — the operations no longer validate and must be rejected
+			if sc, fname, ok := renameSelectedField(p.Schema, defs, r); ok {
+				if s2, err := loadSchema(sc); err == nil {
+					vf, _ := layout(defs, layOneFile, c.Rng("lay", i))
+					if _, verr := parseAndValidate(s2, vf["ops.graphql"]); verr != nil {
+						cs := badCase{Seed: seed, Schema: sc, Files: vf, Fault: fault{Class: "unknown-field-by-schema-change", Def: 0, Line: 1, Validation: true}, Layout: layOneFile, Cfg: cfgFromGen(p.Config)}
+						cs.PrevSchema = p.Schema
+						cs.File, cs.Line = "ops.graphql", 1
+						_ = fname
+						badRun(c, prop, cs)
+						continue
+					}
+				}
+			}
+			c.Res.Count("skipped:class-not-applicable:unknown-field-by-schema-change")
+		}
 		files, where := layout(mut, lay, c.Rng("lay", i))
 		validFiles, _ := layout(defs, lay, c.Rng("lay", i))
 		cs := badCase{Seed: seed, Schema: p.Schema, Files: files, ValidTwin: validFiles, Fault: f, Layout: lay, Cfg: cfgFromGen(p.Config)}
@@ -114,6 +135,12 @@ func runBad(c *Ctx, prop string) {
 			cs.AltLine = where[f.Def].StartLine + f.AltLine - 1
 		}
 		badRun(c, prop, cs)
+	}
+	// the harness validated every host program with gqlparser itself; if the generator rejects a large share of
+	// them, its validation no longer corresponds to the reference validator and the rejections of the faulty
+	// programs certify nothing
+	if rej, tot := c.Res.Distribution["skipped:valid-twin-rejected"], c.Res.Evaluations; prop == "C05" && tot >= 40 && rej*4 > tot {
+		c.Res.Add(proto.Finding{Kind: "mismatch", Class: "reference-validator-disagrees", What: fmt.Sprintf("%d of %d host programs that the reference validator accepts were rejected by the generator", rej, tot)})
 	}
 }
 
@@ -151,6 +178,20 @@ func badRun(c *Ctx, prop string, cs badCase) {
 	prog := &Program{Schema: map[string]string{}, Ops: cs.Files, Cfg: cs.Cfg}
 	for i, s := range cs.Schema {
 		prog.Schema[fmt.Sprintf("schema%d.graphql", i)] = s
+	}
+	if cs.PrevSchema != nil {
+		// both runs of the pair use one directory that no earlier program used
+		forceSlot = fmt.Sprintf("pair%d", c.Res.Evaluations)
+		defer func() { os.RemoveAll(filepath.Join(c.Work, fmt.Sprintf("p%d-%s", os.Getpid(), forceSlot))); forceSlot = "" }()
+		// the same operations against the schema as it was before the change, at the same path: must be accepted
+		prev := &Program{Schema: map[string]string{}, Ops: cs.Files, Cfg: cs.Cfg}
+		for i, s := range cs.PrevSchema {
+			prev.Schema[fmt.Sprintf("schema%d.graphql", i)] = s
+		}
+		if pout := runGenerate(c.Work, prev, false); pout.Err != nil || pout.Panic != nil {
+			c.Res.Count("skipped:valid-twin-rejected")
+			return
+		}
 	}
 	if cs.ValidTwin != nil {
 		// the unmutated program in the same layout must be accepted, otherwise a rejection of the
@@ -283,4 +324,37 @@ func mergedModelCheck(c *Ctx, cs badCase, tout *GenOut, fail func(kind, class, w
 	if fmt.Sprint(got) != fmt.Sprint(want) {
 		fail("mismatch", "merged-model", fmt.Sprintf("operations generated %v, model's merged document has %v (layout %s)", got, want, cs.Layout), got, want)
 	}
+}
+
+
+var schemaFieldRe = regexp.MustCompile(`(?m)^(\s+)([A-Za-z_][A-Za-z0-9_]*)(\(|:)`)
+
+// renameSelectedField renames, in the schema text, one field (of any type) whose name occurs as a word in the
+// operations; returns the changed schema files.
+func renameSelectedField(schema []string, defs []gen.Def, r *proto.Rng) ([]string, string, bool) {
+	var ops strings.Builder
+	for _, d := range defs {
+		ops.WriteString(d.Text)
+	}
+	words := map[string]bool{}
+	for _, w := range regexp.MustCompile(`[A-Za-z_][A-Za-z0-9_]*`).FindAllString(ops.String(), -1) {
+		words[w] = true
+	}
+	type cand struct{ file int; name string }
+	var cands []cand
+	for fi, text := range schema {
+		for _, m := range schemaFieldRe.FindAllStringSubmatch(text, -1) {
+			if words[m[2]] {
+				cands = append(cands, cand{fi, m[2]})
+			}
+		}
+	}
+	if len(cands) == 0 {
+		return nil, "", false
+	}
+	cd := cands[r.Intn(len(cands))]
+	out := append([]string{}, schema...)
+	re := regexp.MustCompile(`(?m)^(\s+)` + regexp.QuoteMeta(cd.name) + `(\(|:)`)
+	out[cd.file] = re.ReplaceAllString(out[cd.file], "${1}"+cd.name+"RenamedZz${2}")
+	return out, cd.name, true
 }
